@@ -24,7 +24,7 @@ func init() {
 	register(&Prop{
 		ID:        "C04",
 		Level:     "exploration",
-		Nodes:     func(tier string) []string { return []string{"avx2", "avx", "sse", "noclmul", "noaes", "purego"} },
+		Nodes:     func(tier string) []string { return []string{"avx2", "avx", "sse", "noclmul", "noclmul-avx", "noaes", "purego"} },
 		Cross:     true,
 		Gen:       genC04,
 		Exec:      execC04,
@@ -44,6 +44,7 @@ func genC04(r *sim.Rand, tier string) *sim.Program {
 	p.SetCB("key", r.Bytes(16))
 	p.SetC("path", r.Weighted(4, 1))
 	p.SetC("conv", r.Weighted(2, 1))
+	p.SetC("sib", r.PickInt(0, 0, 0, 1, 2, 3, 7))
 	if ccm {
 		p.SetC("ccm", 1)
 		p.SetC("nonce", r.Range(7, 13))
@@ -180,6 +181,49 @@ func execC04(t *testing.T, p *sim.Program, c *sim.Ctx) {
 	if a.NonceSize() != ns || a.Overhead() != ts {
 		c.Fail("parameters", -1, "setup", "NonceSize/Overhead = %d/%d, requested %d/%d", a.NonceSize(), a.Overhead(), ns, ts)
 		return
+	}
+	if sib := p.C("sib"); sib > 0 && !ccm {
+		// other AEADs are made from the SAME block value afterwards, with other parameters, and used: the first one
+		// must not notice (every AEAD is an object of its own)
+		type sv struct{ ns, ts int }
+		var vs []sv
+		if sib&1 != 0 {
+			vs = append(vs, sv{12, 12 + (ts-11)%4}) // a tag size other than this run's
+		}
+		if sib&2 != 0 {
+			vs = append(vs, sv{16 - (ns&1)*3, 16}) // 16- or 13-octet nonces
+		}
+		if sib&4 != 0 {
+			vs = append(vs, sv{12, 16})
+		}
+		for _, v := range vs {
+			var b cipher.AEAD
+			var berr error
+			switch {
+			case v.ns != 12:
+				b, berr = cipher.NewGCMWithNonceSize(lb, v.ns)
+			case v.ts != 16:
+				b, berr = cipher.NewGCMWithTagSize(lb, v.ts)
+			default:
+				b, berr = cipher.NewGCM(lb)
+			}
+			if berr != nil {
+				c.Fail("setup", -1, "setup", "sibling constructor: %v", berr)
+				return
+			}
+			nonce := fitKey(p.CB("key"), v.ns)
+			pt := []byte("sibling record")
+			got := b.Seal(nil, nonce, pt, nil)
+			if want := aead.GCMSeal(mb, nonce, pt, nil, v.ts); !bytes.Equal(got, want) {
+				c.Fail("seal-mismatch", -1, "setup", "a second AEAD (nonce %d, tag %d) made from the same block seals differently from the model", v.ns, v.ts)
+				return
+			}
+			c.Hit("probe:sibling-aead-from-same-block")
+		}
+		if a.NonceSize() != ns || a.Overhead() != ts {
+			c.Fail("parameters", -1, "setup", "after other AEADs were made from the same block, NonceSize/Overhead of the first = %d/%d, requested %d/%d", a.NonceSize(), a.Overhead(), ns, ts)
+			return
+		}
 	}
 	if ml, ok := a.(interface{ MaxLength() int }); ok && ccm {
 		// RFC 3610: the message length is carried in L = 15 - nonce size octets
